@@ -14,6 +14,9 @@ import time
 import traceback
 
 ROOT = os.path.dirname(os.path.dirname(os.path.abspath(__file__)))
+# where evidence/ and replays/ are written: /verif itself, or a scratch directory when a tool runs a check against a
+# deliberately modified copy of the repository (tools/trymut.py, tools/seed_matrix.py)
+OUT = os.environ.get('PYVC_OUT', ROOT)
 sys.path.insert(0, ROOT)
 REPO = os.environ.get('PYVC_REPO', '/repo')
 NATIVE_PY = '/venv/bin/python'
@@ -130,7 +133,7 @@ def run_extra(prop, ex, tier, seed):
 
 
 def write_replay(prop, fn_result, vc):
-    d = os.path.join(ROOT, 'replays', prop)
+    d = os.path.join(OUT, 'replays', prop)
     os.makedirs(d, exist_ok=True)
     safe = ''.join(ch if ch.isalnum() or ch in '._-' else '_' for ch in vc['name'])[:150]
     p = os.path.join(d, safe + '.json')
@@ -219,7 +222,7 @@ def report(prop, spec, tier, seed, results, extra, t0, common):
                 if hit:
                     known_hit.append((hit[0], {'name': ex['name'] + ':' + str(w.get('key'))}))
                     continue
-                d = os.path.join(ROOT, 'replays', prop)
+                d = os.path.join(OUT, 'replays', prop)
                 os.makedirs(d, exist_ok=True)
                 p = os.path.join(d, ''.join(ch if ch.isalnum() or ch in '._-' else '_' for ch in f"{ex['name']}_{w.get('key')}")[:150] + '.json')
                 json.dump({'property': prop, 'obligation': ex['name'], 'kind': ex['kind'], 'witness': w,
@@ -229,13 +232,13 @@ def report(prop, spec, tier, seed, results, extra, t0, common):
     out_lines = []
     for v, p, r in violations:
         if v.get('native'):
-            out_lines.append(f'VIOLATION property={prop} replay={os.path.relpath(p, ROOT)}')
+            out_lines.append(f'VIOLATION property={prop} replay={os.path.relpath(p, OUT)}')
             continue
         rr = replay.try_replay(p)
         if rr == 'reproduced':
-            out_lines.append(f'VIOLATION property={prop} replay={os.path.relpath(p, ROOT)}')
+            out_lines.append(f'VIOLATION property={prop} replay={os.path.relpath(p, OUT)}')
         else:
-            out_lines.append(f'VIOLATION property={prop} replay={os.path.relpath(p, ROOT)} no-failing-input-found')
+            out_lines.append(f'VIOLATION property={prop} replay={os.path.relpath(p, OUT)} no-failing-input-found')
     for k, v in known_hit:
         print(f"KNOWN-FINDING: property={prop} {k.get('what', k.get('obligation'))}")
     for l in out_lines:
@@ -262,8 +265,8 @@ def report(prop, spec, tier, seed, results, extra, t0, common):
     ev = {'property_id': prop, 'tier': tier, 'seed': seed, 'level': level, 'coverage': cov,
           'assumptions': IDEALISATIONS + spec.get('assumptions', []),
           'wall_s': round(time.time() - t0, 2), 'violations': len(out_lines)}
-    os.makedirs(os.path.join(ROOT, 'evidence'), exist_ok=True)
-    json.dump(ev, open(os.path.join(ROOT, 'evidence', f'{prop}.json'), 'w'), indent=1)
+    os.makedirs(os.path.join(OUT, 'evidence'), exist_ok=True)
+    json.dump(ev, open(os.path.join(OUT, 'evidence', f'{prop}.json'), 'w'), indent=1)
     print(f'{prop}: {n_dis}/{n_ob} obligations discharged, {len(fns)} contracts, {len(bounded)} bounded/syntactic checks, '
           f'{len(out_lines)} violations, {len(undecided)} undecided, {len(crashes)} checker errors, '
           f'{ev["wall_s"]}s')
